@@ -4,9 +4,15 @@ import json, os
 V = os.path.dirname(os.path.dirname(os.path.abspath(__file__)))
 CLAIMED = {
  # id: (category, technique, text, note)
+ 'C02': ('proof', 'deductive VCs from the real AST (pyvc): representation invariant pKa = model + SUM established by calculate_total_pka (fold rule), ghost stale-flag sequencing proof of calculate_pka, swap/undo proof of the coupling probe on symbolic determinant lists, averaging, rendering ropes; frame census of writers',
+         'INV proved to be established, preserved by the coupling probe and by averaging, and re-established on every path of calculate_pka; printed rows proved to be exactly the determinants. Numeric text (2 decimals) only by the bounded monitor.',
+         'A-REAL; writers abstracted by the declared frame list; list shapes <= 4 in swap proofs'),
  'C09': ('proof', 'deductive VCs from the real AST (pyvc) discharged by z3: closed form/bounds/monotonicity of calculate_charge, fold rule for the container sums, inductive contract of the nested bisection, rendering contract',
          'Every obligation is a VC generated from the working tree and discharged by z3; a bounded monitor on real runs stands in for the composition step only.',
          'A-REAL, A-EXP (10**x as positive strictly monotone function), IVT for "bracket => root", termination of the bisection not proved'),
+ 'C15': ('proof', 'deductive VCs from the real AST (pyvc): swap/undo of the coupling probe on symbolic determinant lists (object identity, values, labels), involution of transfer_determinant, symmetric registration, positive-factor rule, star rule',
+         'every return path of is_coupled_protonation_state_probability restores both groups exactly (over the reals); coupling marks symmetric as read by every consumer; star <=> partner.',
+         'A-REAL (float sums after re-ordering: monitored to 1e-9); membership read through Group.__eq__ (labels; known finding D9 for insertion codes)'),
  'C16': ('proof', 'deductive VCs from the real AST (pyvc) for every energy / determinant constructor, preconditions = GROUND facts of the shipped propka.cfg, ghost lemmas (Lagrange identity via ring normalisation)',
          'Sign and bound postconditions (incl. frame: already listed determinants untouched) proved per constructor for all real inputs; cfg facts by exhaustive evaluation.',
          'A-REAL; callee contracts used at call sites are proved in the same run; loop rule for the desolvation sum'),
